@@ -161,6 +161,10 @@ StoreAdd(s, h) ==
      ELSE store' = [store EXCEPT ![s] = @ \cup {o}] /\ last' = [op |-> [k |-> "add", s |-> s], h |-> h, res |-> "ok"]
   /\ UNCHANGED <<heap, kind, par, clock>>
 
+\* a store closed and opened again: the memory store saved to a file and loaded into a fresh one, a fresh filesystem store on the same directory.  Nothing changes (C11:
+\* "what comes out equals what went in, also after saving a memory store to a file and loading it again") -- with markings, revoked flags and every version
+Reopen(s) == last' = [op |-> [k |-> "reopen", s |-> s], res |-> "ok"] /\ UNCHANGED <<heap, kind, par, store, clock>>
+
 \* reads; src is a store or "composite" (the federation of both, also what an environment over both answers)
 Content(src) == IF src = "composite" THEN store["mem"] \cup store["fs"] ELSE store[src]
 Read(src, rd, ans) == last' = [op |-> [k |-> "read", src |-> src, rd |-> rd], res |-> ans] /\ UNCHANGED <<heap, kind, par, store, clock>>
@@ -185,6 +189,7 @@ Next == \/ \E d \in Deltas : Tick(d)
               \/ \E h \in DOMAIN heap : Mutate(h) \/ (\E how \in {"roundtrip", "deepcopy", "bundle"} : Copy(h, how))
               \/ \E src \in Stores \cup {"composite"}, id \in Ids : Fetch(src, id)
         \/ \E s \in Stores, h \in DOMAIN heap : StoreAdd(s, h)
+        \/ (WithReads /\ \E s \in Stores : store[s] # {} /\ Reopen(s))
         \/ (WithReads /\ Reads(FilterSets))
 Spec == Init /\ [][Next]_vars
 
